@@ -43,7 +43,7 @@ structure ValidElf (b name : Bytes) : Prop where
   hns : eNamesOff b + eNamesSize b ≤ eShoff b
   hns32 : eNamesSize b < U32
   hnames : ∀ i, i < eNum b → NameOk b name (eNamesOff b + secField b i 0 4) (eNamesOff b + eNamesSize b)
-  hshift : ∀ i, i < eNum b → eStrndx b < i → secField b i 0x18 8 + (name.length + 1) < U64
+  hshift : ∀ i, i < eNum b → secField b i 0x18 8 + (name.length + 1) < U64
   hname0 : ∀ c, c ∈ name → c ≠ 0
   hnamelen : name.length < 32
 
@@ -53,7 +53,7 @@ instance (b name : Bytes) : Decidable (ValidElf b name) :=
      eStrndx b < eNum b ∧ eNum b + 1 < U16 ∧ 64 ≤ eNamesOff b ∧ eNamesOff b + eNamesSize b ≤ eShoff b ∧
      eNamesSize b < U32 ∧
      (∀ i, i < eNum b → NameOk b name (eNamesOff b + secField b i 0 4) (eNamesOff b + eNamesSize b)) ∧
-     (∀ i, i < eNum b → eStrndx b < i → secField b i 0x18 8 + (name.length + 1) < U64) ∧
+     (∀ i, i < eNum b → secField b i 0x18 8 + (name.length + 1) < U64) ∧
      (∀ c, c ∈ name → c ≠ 0) ∧ name.length < 32)
     ⟨fun ⟨a, b, c, d, e, f, g, h, i, j, k, l, m⟩ => ⟨a, b, c, d, e, f, g, h, i, j, k, l, m⟩,
      fun ⟨a, b, c, d, e, f, g, h, i, j, k, l, m⟩ => ⟨a, b, c, d, e, f, g, h, i, j, k, l, m⟩⟩
